@@ -22,7 +22,8 @@ def run(tier):
     quick = tier != "thorough"
 
     # ---- MC: refinement of the impl-shaped reader against the abstract contract
-    mc = vlib.tlc_mc("Codec.tla", "MC_Codec.cfg" if quick else "MC_Codec_thorough.cfg", name="c20_mc")
+    mc = vlib.tlc_mc("Codec.tla", "MC_Codec.cfg" if quick else "MC_Codec_thorough.cfg", name="c20_mc",
+                     timeout=900 if quick else 3400, workers=8 if quick else 12)
     vlib.require_actions(mc, ["AddRec", "Feed", "Next"])
     c.add_mc(mc)
     neg = vlib.tlc_mc("Codec.tla", "MC_Codec_defect.cfg", expect_violation="NoEarlyStop", name="c20_neg")
